@@ -138,12 +138,16 @@ hgcd_matrix_apply (const struct hgcd_matrix *M,
 
       ASSERT (n <= 2*modn);
 
+      MPIR_VERIF_HIT (MPIR_VERIF_HGCD_REDUCE_APPLY);
       if (n > modn)
 	{
+	  MPIR_VERIF_HIT (MPIR_VERIF_HGCD_REDUCE_FOLD);
 	  cy = mpn_add (ap, ap, modn, ap + modn, n - modn);
+	  if (cy) MPIR_VERIF_HIT (MPIR_VERIF_HGCD_REDUCE_FOLD_CARRY_A);
 	  MPN_INCR_U (ap, modn, cy);
 
 	  cy = mpn_add (bp, bp, modn, bp + modn, n - modn);
+	  if (cy) MPIR_VERIF_HIT (MPIR_VERIF_HGCD_REDUCE_FOLD_CARRY_B);
 	  MPN_INCR_U (bp, modn, cy);
 
 	  n = modn;
